@@ -13,6 +13,7 @@ NOTE = ("Trusted: z3 5.1 (sampled/complete cross-check by cvc5 1.4), the symnp e
 CHECKS = {
     # id: (design_ref, technique, extra level text)
     "C02": ("3/C02", "symbolic execution of the gradient pipeline with concrete injected designs (NumPy's SVD on concrete deltas) and symbolic slopes/weights/failures; SVD kernel separately with symbolic singular values; NRA obligations decided by z3", ""),
+    "C03": ("3/C03", "symbolic execution of the evaluator with symbolic failure flags and symbolic thresholds; metamorphic self-composition (full vs reduced ensemble) proved equal by z3; scripted optimizer through EnsembleOptimizer", ""),
     "C04": ("3/C04", "symbolic execution of the CVaR filter: real-mode NRA obligations over values/flags/percentile plus a Float64 (z3 FP theory) run of int(p*n) for every double p", ""),
     "C05": ("3/C05", "symbolic execution of the sort filter (argsort forks over orders); tie-robust rank-window obligations decided by z3", ""),
     "C10": ("3/C10", "symbolic execution of fix_perturbations + _perturb_variables/_apply_bounds through EnsembleEvaluator.calculate; linear/bilinear obligations decided by z3", ""),
